@@ -242,3 +242,20 @@ func (s iset) smallerThan(limit uint64) bool {
 	h, l := s.count128()
 	return h == 0 && l <= limit
 }
+
+// kth: the k-th smallest element (0-based) of the set, if there is one. Used for the exact Select oracle: the set is the
+// harness' own projection of the raw representation (view32 / view64), not anything Select computes.
+func (s iset) kth(k uint64) (uint64, bool) {
+	for _, sp := range s {
+		n := sp.hi - sp.lo // size - 1
+		if k <= n {
+			return sp.lo + k, true
+		}
+		k -= n
+		if k == 0 {
+			return 0, false
+		}
+		k--
+	}
+	return 0, false
+}
